@@ -29,7 +29,7 @@ LEVEL_TEXT = ("Exploration by generated histories: every sequence of up to 4 (qu
               "order), exactly once, halting, removal, rejection of undeclared types, error suppression, weak handlers. The event "
               "library is pure and single threaded, so dense enumeration of short histories plus random longer ones is the fitting "
               "level; nothing is claimed beyond the explored bounds.")
-LEVEL_NOTE = ("where the statement is silent the monitor accepts both outcomes (handler subscribed or unsubscribed during a delivery, "
+LEVEL_NOTE = ("where the statement is silent the monitor accepts both outcomes (handler subscribed during a delivery, "
               "bare True/False return values, event.halt set without a halting return value, handlers after one that raised)")
 RULE = ("a case is a history of subscribe/unsubscribe/raise/drop-owner/auto-bind operations with per-owner handler scripts; it is "
         "non-trivial when it contains a delivery whose snapshot has >= 2 handlers and in which a handler performed a re-entrant "
@@ -38,7 +38,8 @@ ASSUMPTIONS = [
   "handlers are bound methods (the only kind CallProxy supports for weak=True); events are Event subclasses",
   "owner objects may have value equality (distinct owners comparing and hashing equal): a subscription belongs to the object, not to its value",
   "a handler's exception may derive directly from BaseException (the harness's own Cancelled class; KeyboardInterrupt/SystemExit are not used)",
-  "a handler subscribed, or unsubscribed by another handler, while a delivery is in progress may or may not be invoked in that delivery (at most once)",
+  "a handler subscribed while a delivery is in progress may or may not be invoked in that delivery (at most once); a handler of the raise-time snapshot that is unsubscribed during the delivery is still owed its invocation (snapshot semantics, as the statement says) unless the event is halted first or it is a weak handler whose owner dies first",
+  "a snapshot entry that ended its own subscription (one-shot / remove return value) in a nested delivery before its turn in the outer one is not judged in the outer one ('never invoked again' vs 'every handler subscribed at that moment')",
   "bare True / False return values and 'event.halt = True' without a halting return value are outside the documented protocol: their effect is not judged",
   "after a handler raised, whether the remaining handlers of that delivery run is not judged",
   "raising the class form of an undeclared type with no listeners is not judged (the statement only names instances)",
@@ -47,13 +48,23 @@ ASSUMPTIONS = [
   "owner death is observed through a weakref (never predicted) except for owners that were only ever subscribed weakly and are dropped outside any delivery: those must be collectable",
 ]
 EXHAUSTIVE_SCOPE = {
-  "quick": "all operation sequences (with repetition) of length <= 4 over the four fixed alphabets 'prio' (12 ops), 'remove' (14 ops), 'weak' (16 ops) and 'eq' (13 ops), fixed handler scripts",
-  "thorough": "all operation sequences (with repetition) of length <= 5 over the same four alphabets",
+  "quick": "all operation sequences (with repetition) of length <= 4 over the four fixed alphabets 'prio' (12 ops), 'remove' (16 ops), 'weak' (16 ops) and 'eq' (13 ops), and of length <= 3 over 'bind' (14 ops: name-based wiring with overlapping prefixes / event names on a third source), fixed handler scripts",
+  "thorough": "all operation sequences (with repetition) of length <= 5 over the same four alphabets, <= 4 over 'bind'",
 }
 
-METHODS = ["handle", "_handle_E0", "_handle_E1", "_handle_E2", "_handle_EU", "_handle_p_E0", "_handle_p_E1", "_handle_p_EU"]
-TYPE_NAMES = ["E0", "E1", "E2", "EU"]
-DECLARED = [[0, 1, 2], [0, 1]]
+METHODS = ["handle", "_handle_E0", "_handle_E1", "_handle_E2", "_handle_EU", "_handle_p_E0", "_handle_p_E1", "_handle_p_EU",
+           # names whose prefixes and event names share letters with each other and with "_handle_" (source 2)
+           "_handle_Up", "_handle_Down", "_handle_DHCPLease", "_handle_Lease", "_handle_handle",
+           "_handle_lan_Up", "_handle_lan_Down", "_handle_lan_handle",
+           "_handle_DHCPD_DHCPLease", "_handle_DHCPD_DHCPOffer", "_handle_DHCPD_Lease",
+           "_handle_handle_Up", "_handle_handle_handle", "_handle_Up_Up", "_handle_Up_Down",
+           "_handle_e_l_Lease", "_handle_e_l_handle",
+           # look-alikes that no prefix of the pool may bind
+           "_handle_lanUp", "_handle_DHCPDLease", "_handleUp", "_handle_lan_up", "_handle_Upp", "_handle_e_lLease",
+           "_handle_Up_", "_handle__Up"]
+TYPE_NAMES = ["E0", "E1", "E2", "EU", "Up", "Down", "DHCPLease", "DHCPOffer", "handle", "Lease"]
+DECLARED = [[0, 1, 2], [0, 1], [4, 5, 6, 7, 8, 9]]
+BIND_PREFIXES = ["", "p", "lan", "DHCPD", "handle", "Up", "e_l"]
 RET_KINDS = ["none", "true", "false", "cont", "halt", "remove", "haltremove"]
 SUB_APIS = ["addListener", "byName", "add_listener_type", "add_listener_name", "add_listener_infer"]
 UNSUB_HOW = ["handler", "handler_type", "eid", "pair", "pair_type", "eid_type", "listeners"]
@@ -93,6 +104,9 @@ def setup():
   class S1(RE.EventMixin):
     _eventMixin_events = set(types[:2])
 
+  class S2(RE.EventMixin):
+    _eventMixin_events = set(types[4:])
+
   def mk(name):
     def method(self, event):
       return self._rt.on_invoke(self._i, name, event)
@@ -119,7 +133,7 @@ def setup():
   }
   if (RE.EventContinue, RE.EventHalt, RE.EventRemove, RE.EventHaltAndRemove) != ((False, False), (True, False), (False, True), (True, True)):
     raise HarnessError("EventReturn constants are not the documented (halt, remove) pairs")
-  _P = {"RE": RE, "types": types, "srccls": [S0, S1], "Owner": Owner, "EqOwner": EqOwner, "rets": rets}
+  _P = {"RE": RE, "types": types, "srccls": [S0, S1, S2], "Owner": Owner, "EqOwner": EqOwner, "rets": rets}
   gc.collect()
   gc.freeze()
 
@@ -131,7 +145,7 @@ class RT(object):
     P = _P
     self.P = P
     self.out = out
-    self.nsrc = 2 if case.get("nsrc", 1) >= 2 else 1
+    self.nsrc = min(3, max(1, int(case.get("nsrc", 1))))
     self.scripts = case["owners"]
     self.nown = len(self.scripts)
     if self.nown < 1:
@@ -271,6 +285,8 @@ class RT(object):
       e = self.op_sub(op)
     elif k == "unsub":
       e = self.op_unsub(op)
+    elif k == "unsubs":
+      e = self.op_unsubs(op)
     elif k == "raise":
       e = self.op_raise(op, nested)
     elif k == "drop":
@@ -292,9 +308,11 @@ class RT(object):
     i = op["h"] % self.nown
     m = op.get("m", 0) % len(METHODS)
     api = op.get("api", "addListener")
-    ti = op["t"] % 4
+    ti = op["t"] % len(TYPE_NAMES)
     if api == "add_listener_infer":
       if m == 0:
+        api = "add_listener_type"
+      elif METHODS[m].rsplit("_", 1)[-1] not in TYPE_NAMES:
         api = "add_listener_type"
       else:
         ti = TYPE_NAMES.index(METHODS[m].rsplit("_", 1)[-1])
@@ -426,10 +444,69 @@ class RT(object):
       self.flag("reentrant-unsub")
     return None
 
+  def op_unsubs(self, op):
+    """removeListeners([...]) with a list of mixed identifiers (handler / eid / (type, eid) pair), some of
+    which may no longer (or twice) name a subscription.  All refer to the source of the first item."""
+    subs = self.mon.subs
+    items = op.get("items", [])
+    if not subs or not items:
+      self.flag("op-skipped-no-subscription")
+      return None
+    first = subs[items[0]["k"] % len(subs)]
+    src = self.sources[first.src]
+    ids, plan = [], []
+    for it in items:
+      s = subs[it["k"] % len(subs)]
+      if s.src != first.src:
+        continue
+      how = it.get("how", "pair")
+      if how == "handler":
+        bm = self.bound(s.handler[0], METHODS.index(s.handler[1]))
+        if bm is None:
+          continue
+        ids.append(bm)
+        del bm
+        plan.append(("handler", s))
+      elif how == "eid":
+        ids.append(s.eid)
+        plan.append(("eid", s))
+      else:
+        ids.append((self.P["types"][s.etype], s.eid))
+        plan.append(("pair", s))
+    if not ids:
+      self.flag("op-skipped-owner-gone")
+      return None
+    if len(ids) >= 2:
+      self.flag("unsub-bulk-2plus")
+    if any(s.state == evmodel.DEAD for _, s in plan):
+      self.flag("unsub-bulk-with-entry-not-subscribed")
+    if len(set(h for h, _ in plan)) > 1:
+      self.flag("unsub-bulk-mixed-forms")
+    try:
+      src.removeListeners(ids)
+    except HarnessError:
+      raise
+    except Exception as e:
+      del ids
+      self.out.violations.append({"key": exc_key(e, clause="unsubscribe-raised", how="bulk"),
+                                  "msg": "removeListeners raised %r\n%s" % (e, traceback.format_exc()[-1200:])})
+      return None
+    del ids
+    for how, s in plan:
+      if how == "handler":
+        for a in self.mon.select(s.src, handler=s.handler):
+          self.mon.unsubscribe([a], "unsub-bulk")
+      else:
+        self.mon.unsubscribe([s], "unsub-bulk")
+    self.flag("unsub-bulk")
+    if self.depth:
+      self.flag("reentrant-unsub")
+    return None
+
   def op_raise(self, op, nested):
     RE = self.P["RE"]
     si = op["s"] % self.nsrc
-    ti = op["t"] % 4
+    ti = op["t"] % len(TYPE_NAMES)
     src = self.sources[si]
     T = self.P["types"][ti]
     form = op.get("form", "inst")
@@ -576,10 +653,21 @@ class RT(object):
                                   "msg": "auto binding raised %r\n%s" % (e, traceback.format_exc()[-1200:])})
       return None
     del o
-    got = sorted((t.__name__ if isinstance(t, type) else repr(t)) for t, _ in r) if isinstance(r, list) else None
-    want = sorted(TYPE_NAMES[ti] for _, ti in expect)
+    got = None
+    if isinstance(r, list):
+      got = []
+      for pair in r:
+        t, eid = pair if isinstance(pair, tuple) and len(pair) == 2 else (None, None)
+        hname = "?"
+        for ent in getattr(src, "_eventMixin_handlers", {}).get(t, ()):
+          if ent[3] == eid:
+            h = ent[1]
+            hname = getattr(getattr(h, "method", None), "__name__", None) or getattr(h, "__name__", "?")
+        got.append((t.__name__ if isinstance(t, type) else repr(t), hname))
+      got.sort()
+    want = sorted((TYPE_NAMES[ti], m) for m, ti in expect)
     if got != want:
-      self.out.fail("autobind-wiring", "auto binding with prefix %r bound %r, expected %r" % (pfx, got, want), api=api)
+      self.out.fail("autobind-wiring", "auto binding with prefix %r bound (event, method) %r, expected %r" % (pfx, got, want), api=api)
       for pair in (r if isinstance(r, list) else ()):
         src.removeListener(pair)
       return None
@@ -621,8 +709,8 @@ def run_case(case):
     out.label(f)
   for k, v in sorted(rt.mon.stats.items()):
     out.label(k)
-  if rt.nsrc == 2:
-    out.label("two-sources")
+  if rt.nsrc >= 2:
+    out.label("two-sources" if rt.nsrc == 2 else "three-sources")
   if out.violations:
     out.label("case-with-violation")
   return out
@@ -675,7 +763,9 @@ def _alphabets():
   ]
   ops = [_sub(0), _sub(1), _sub(2), _sub(3, once=True), _sub(4), _sub(5), _sub(0, once=True), _sub(0, t=1),
          _raise(), _raise(noerr=True), _raise(t=1, form="cls"),
-         _unsub(0, "handler"), _unsub(0, "handler_type"), _unsub(1, "eid")]
+         _unsub(0, "handler"), _unsub(0, "handler_type"), _unsub(1, "eid"),
+         {"op": "unsubs", "items": [{"k": 0, "how": "pair"}, {"k": 1, "how": "pair"}]},
+         {"op": "unsubs", "items": [{"k": 2, "how": "eid"}, {"k": 1, "how": "handler"}, {"k": 0, "how": "pair"}]}]
   A["remove"] = (owners, ops, 1)
   # weak handlers, owners, by-name wiring, two sources, undeclared types
   owners = [
@@ -701,6 +791,16 @@ def _alphabets():
          _unsub(0, "handler"), _unsub(1, "handler"), _unsub(0, "handler_type"), _unsub(1, "eid"),
          {"op": "drop", "h": 0}, _raise(), _raise(noerr=True), _raise(t=1, form="cls", noerr=True)]
   A["eq"] = (owners, ops, 1)
+  # name-based wiring where prefixes, event names and "_handle_" share letters (source 2)
+  owners = [_o(), _o(ret="remove")]
+  ops = [{"op": "bind", "s": 2, "h": 0, "pfx": pf, "weak": False, "p": 0, "api": api}
+         for pf, api in (("", "addListeners"), ("lan", "autoBind"), ("DHCPD", "listenTo"), ("handle", "addListeners"),
+                         ("Up", "autoBind"), ("e_l", "addListeners"))]
+  ops += [{"op": "bind", "s": 2, "h": 1, "pfx": "", "weak": True, "p": 5, "api": "addListeners"},
+          {"op": "bind", "s": 2, "h": 1, "pfx": "DHCPD", "weak": True, "p": 0, "api": "autoBind"},
+          _raise(s=2, t=4), _raise(s=2, t=6, form="cls"), _raise(s=2, t=8), _raise(s=2, t=9, noerr=True),
+          _unsub(0, "handler"), {"op": "drop", "h": 1}]
+  A["bind"] = (owners, ops, 3)
   return A
 
 
@@ -716,21 +816,23 @@ def _enum(name, maxlen):
 def _s_op(nested):
   prio = st.sampled_from([-1, 0, 0, 0, 0, 5, 5, 7])
   sub = st.fixed_dictionaries({
-    "op": st.just("sub"), "s": st.integers(0, 1), "t": st.sampled_from([0, 0, 0, 1, 1, 2, 3]), "h": st.integers(0, 5),
-    "m": st.sampled_from([0, 0, 0, 0, 1, 2, 4, 5]), "p": prio, "once": st.sampled_from([False, False, False, True]),
+    "op": st.just("sub"), "s": st.integers(0, 2), "t": st.sampled_from([0, 0, 0, 0, 0, 1, 1, 1, 2, 3, 4, 8]), "h": st.integers(0, 5),
+    "m": st.sampled_from([0, 0, 0, 0, 1, 2, 4, 5, 8, 13]), "p": prio, "once": st.sampled_from([False, False, False, True]),
     "weak": st.sampled_from([False, False, False, True]), "api": st.sampled_from(SUB_APIS[:1] * 4 + SUB_APIS),
   })
   unsub = st.fixed_dictionaries({"op": st.just("unsub"), "k": st.integers(0, 11),
                                  "how": st.sampled_from(["handler", "handler", "eid", "pair"] + UNSUB_HOW)})
-  rais = st.fixed_dictionaries({"op": st.just("raise"), "s": st.integers(0, 1), "t": st.sampled_from([0, 0, 0, 0, 1, 1, 2, 3]),
+  unsubs = st.fixed_dictionaries({"op": st.just("unsubs"), "items": st.lists(
+      st.fixed_dictionaries({"k": st.integers(0, 11), "how": st.sampled_from(["pair", "pair", "eid", "handler"])}), min_size=2, max_size=5)})
+  rais = st.fixed_dictionaries({"op": st.just("raise"), "s": st.integers(0, 2), "t": st.sampled_from([0, 0, 0, 0, 0, 0, 1, 1, 1, 2, 3, 4, 5, 6, 8, 9]),
                                 "form": st.sampled_from(["inst", "cls"]), "noerr": st.booleans()})
   drop = st.fixed_dictionaries({"op": st.just("drop"), "h": st.integers(0, 5)})
-  bind = st.fixed_dictionaries({"op": st.just("bind"), "s": st.integers(0, 1), "h": st.integers(0, 5),
-                                "pfx": st.sampled_from(["", "p"]), "weak": st.booleans(), "p": prio,
+  bind = st.fixed_dictionaries({"op": st.just("bind"), "s": st.sampled_from([0, 1, 2, 2]), "h": st.integers(0, 5),
+                                "pfx": st.sampled_from(BIND_PREFIXES), "weak": st.booleans(), "p": prio,
                                 "api": st.sampled_from(BIND_APIS)})
   if nested:
-    return st.one_of(sub, sub, unsub, rais, sub, unsub, drop)
-  return st.one_of(sub, sub, sub, rais, rais, unsub, sub, rais, drop, bind)
+    return st.one_of(sub, sub, unsub, rais, sub, unsub, drop, unsubs)
+  return st.one_of(sub, sub, sub, rais, rais, unsub, sub, rais, drop, bind, unsubs)
 
 
 def _strategy(tier):
@@ -745,7 +847,7 @@ def _strategy(tier):
     "ops": st.lists(_s_op(True), min_size=0, max_size=3),
   })
   return st.fixed_dictionaries({
-    "nsrc": st.sampled_from([1, 1, 2]),
+    "nsrc": st.sampled_from([1, 1, 1, 2, 3]),
     "owners": st.lists(owner, min_size=2, max_size=5),
     "ops": st.lists(_s_op(False), min_size=2, max_size=maxops),
   })
@@ -758,6 +860,7 @@ def plan(tier):
       Enum("seq-remove", lambda: _enum("remove", 4), shards=6),
       Enum("seq-weak", lambda: _enum("weak", 4), shards=8),
       Enum("seq-eq", lambda: _enum("eq", 4), shards=4),
+      Enum("seq-bind", lambda: _enum("bind", 3), shards=4),
       Hyp("histories", lambda: _strategy(tier), examples=3000, shards=16),
     ]
   return [
@@ -765,5 +868,6 @@ def plan(tier):
     Enum("seq-remove", lambda: _enum("remove", 5), shards=16),
     Enum("seq-weak", lambda: _enum("weak", 5), shards=16),
     Enum("seq-eq", lambda: _enum("eq", 5), shards=16),
+    Enum("seq-bind", lambda: _enum("bind", 4), shards=16),
     Hyp("histories", lambda: _strategy(tier), examples=600000, shards=16),
   ]
